@@ -600,6 +600,20 @@ func genDict(t *rapid.T) (Dict, []string) {
 		}
 		d.ChordFiles[cc[i]] = append(d.ChordFiles[cc[i]], c)
 	}
+	// a dictionary is a set of definitions: the order of the files on the command line and of the entries in a
+	// file says nothing about who may extend whom (children may come before their parents)
+	if len(d.ChordFiles) >= 2 && coin(t, "children-first-files", 30) {
+		for i, j := 0, len(d.ChordFiles)-1; i < j; i, j = i+1, j-1 {
+			d.ChordFiles[i], d.ChordFiles[j] = d.ChordFiles[j], d.ChordFiles[i]
+		}
+	}
+	if coin(t, "children-first-in-file", 20) {
+		for _, f := range d.ChordFiles {
+			for i, j := 0, len(f)-1; i < j; i, j = i+1, j-1 {
+				f[i], f[j] = f[j], f[i]
+			}
+		}
+	}
 	return d, usable
 }
 
